@@ -18,11 +18,11 @@ EXTENDS LifecycleMon, TraceKit
 
 CONSTANT Want
 
-VARIABLES l, fails, m, pred, drift, ncase, cnt, done
-tvars == <<l, fails, m, pred, drift, ncase, cnt, done>>
+VARIABLES l, fails, m, pred, drift, ncase, cnt, prevS, seen, done
+tvars == <<l, fails, m, pred, drift, ncase, cnt, prevS, seen, done>>
 
 OpOf(r) == [side |-> r.side, op |-> r.op, phase |-> r.phase, res |-> r.res, anc |-> r.anc, tree |-> r.tree]
-KnownEv == {"Begin", "Cmd", "EndpointOp", "Edit", "Roots", "Disk", "State", "End", "CaseAborted", "Infra"}
+KnownEv == {"Begin", "Cmd", "EndpointOp", "Edit", "Roots", "Disk", "State", "Stream", "End", "CaseAborted", "Infra"}
 
 Apply(mm, r) ==
   CASE r.ev = "Begin" -> MInit(r.in.mode)
@@ -63,17 +63,35 @@ Judge(i, r, m0, m1) ==
 Drift(r, p) == IF r.ev = "Cmd" /\ r.phase = "return" /\ r.id \in DOMAIN p /\ p[r.id] # r.result THEN 1 ELSE 0
 
 \* how often the antecedents of the properties were established by real observations (vacuity control)
-Cnt0 == [halts |-> 0, quiets |-> 0, flushok |-> 0, terms |-> 0, resets |-> 0, pausedobs |-> 0, cycles |-> 0]
-Bump(c, r, m0, m1) ==
+Cnt0 == [halts |-> 0, quiets |-> 0, flushok |-> 0, terms |-> 0, resets |-> 0, pausedobs |-> 0, cycles |-> 0,
+         stchk |-> 0, stdrift |-> 0, stream |-> 0, strdrift |-> 0, strdirect |-> 0]
+\* conformance with the status machine (growth beyond C29/C11: counted, never a verdict)
+NoSample == [set |-> FALSE, st |-> "none", err |-> FALSE, cyc |-> 0]
+SampleOf(r) == [set |-> TRUE, st |-> r.status, err |-> r.err, cyc |-> r.cycles]
+PinnedState(r, m0) == r.ev = "State" /\ r.stable /\ r.listErr = "" /\ r.listed /\ Pinned(m0)
+StreamPair(r, p) == r.ev = "Stream" /\ r.listed /\ p.set
+Bump(c, r, m0, m1, p) ==
   [halts |-> c.halts + (IF m1.halted /\ ~m0.halted THEN 1 ELSE 0),
    quiets |-> c.quiets + (IF m1.quiet /\ ~m0.quiet THEN 1 ELSE 0),
    flushok |-> c.flushok + (IF r.ev = "Cmd" /\ r.phase = "return" /\ r.kind = "flushw" /\ r.result = "ok" THEN 1 ELSE 0),
    terms |-> c.terms + (IF m1.term /\ ~m0.term THEN 1 ELSE 0),
    resets |-> c.resets + (IF m1.resetClean /\ ~m0.resetClean THEN 1 ELSE 0),
    pausedobs |-> c.pausedobs + (IF r.ev = "State" /\ KnownPaused(m0) THEN 1 ELSE 0),
-   cycles |-> c.cycles + (IF m1.cy.ph = "scanned" /\ m0.cy.ph = "scanning" THEN 1 ELSE 0)]
+   cycles |-> c.cycles + (IF m1.cy.ph = "scanned" /\ m0.cy.ph = "scanning" THEN 1 ELSE 0),
+   stchk |-> c.stchk + (IF PinnedState(r, m0) THEN 1 ELSE 0),
+   stdrift |-> c.stdrift + (IF PinnedState(r, m0) /\ ~StatusAgrees(m0, r) THEN 1 ELSE 0),
+   stream |-> c.stream + (IF r.ev = "Stream" THEN 1 ELSE 0),
+   strdrift |-> c.strdrift + (IF StreamPair(r, p) /\ ~StreamOK(p, SampleOf(r)) THEN 1 ELSE 0),
+   strdirect |-> c.strdirect + (IF StreamPair(r, p) /\ StepOK(p, SampleOf(r)) THEN 1 ELSE 0)]
 
-TInit == l = 1 /\ fails = <<>> /\ m = MInit("tws") /\ pred = <<>> /\ drift = 0 /\ ncase = 0 /\ cnt = Cnt0 /\ done = FALSE
+\* the previous sample of the stream; forgotten where the state object itself is replaced (a new manager) or gone
+NextSample(r, p) ==
+  IF r.ev = "Begin" \/ (r.ev = "Cmd" /\ r.kind = "restart") THEN NoSample
+  ELSE IF r.ev = "Stream" THEN (IF r.listed THEN SampleOf(r) ELSE NoSample)
+  ELSE p
+
+TInit == l = 1 /\ fails = <<>> /\ m = MInit("tws") /\ pred = <<>> /\ drift = 0 /\ ncase = 0 /\ cnt = Cnt0
+         /\ prevS = NoSample /\ seen = {} /\ done = FALSE
 Step == /\ l <= NRec
         /\ LET r == Trace[l]
                m1 == Apply(m, r)
@@ -82,13 +100,18 @@ Step == /\ l <= NRec
               /\ pred' = IF r.ev = "Begin" THEN (IF Has(r.in, "predicted") THEN r.in.predicted ELSE <<>>) ELSE pred
               /\ drift' = drift + Drift(r, pred)
               /\ ncase' = ncase + (IF r.ev = "Begin" THEN 1 ELSE 0)
-              /\ cnt' = Bump(cnt, r, m, m1)
+              /\ cnt' = Bump(cnt, r, m, m1, prevS)
+              /\ prevS' = NextSample(r, prevS)
+              /\ seen' = IF r.ev = "Stream" /\ r.listed THEN seen \cup {r.status} ELSE seen
         /\ l' = l + 1 /\ UNCHANGED done
 Finish == /\ l = NRec + 1 /\ ~done
           /\ WriteResult(l - 1, fails, [stat_drift |-> drift, stat_cases |-> ncase, stat_halts |-> cnt.halts, stat_quiets |-> cnt.quiets,
                                         stat_flushok |-> cnt.flushok, stat_terms |-> cnt.terms, stat_resets |-> cnt.resets,
-                                        stat_pausedobs |-> cnt.pausedobs, stat_cycles |-> cnt.cycles])
-          /\ done' = TRUE /\ UNCHANGED <<l, fails, m, pred, drift, ncase, cnt>>
+                                        stat_pausedobs |-> cnt.pausedobs, stat_cycles |-> cnt.cycles,
+                                        stat_status_checked |-> cnt.stchk, stat_status_drift |-> cnt.stdrift,
+                                        stat_stream |-> cnt.stream, stat_stream_drift |-> cnt.strdrift,
+                                        stat_stream_direct |-> cnt.strdirect, stat_statuses_seen |-> Cardinality(seen)])
+          /\ done' = TRUE /\ UNCHANGED <<l, fails, m, pred, drift, ncase, cnt, prevS, seen>>
 TNext == Step \/ Finish
 TSpec == TInit /\ [][TNext]_tvars
 ====
